@@ -25,6 +25,14 @@ Readings (the weaker one where the statement leaves a choice):
 * a map entry name -> same name is a request like any other (the name stays, the token stays): maps
   with identity entries alone and mixed with renamings, on names that occur / do not occur, are part of
   every instance's Maps (Tokens!AllIdentity, HasIdentity).
+* the callers named in the property's anchor are part of the action alphabet (Tokens!RenameVia): the
+  text becomes the right-hand side of an Equation (alone / inside an EquationBlock) and is renamed with
+  ReplaceTokensFromLookup; observed is GetRightHandSide() before and after.  An Equation stores some
+  texts in a normal form (leading + dropped, redundant brackets of a one- or two-factor term dropped;
+  that is C12's subject), so the C13 sentences are judged by TLC on the stored form seen before the
+  call; its names must be the names of the expression (else drift `stored_names`), its value under the
+  renamed environment must be the value of the expression.  A text an Equation refuses has nothing
+  to rename and is counted (`route_constructions_refused`).
 * "name" is what the tokenizer calls NAME.  Names that Python's number constructors also accept as
   the text of a number (inf, nan, NaN, Infinity, INF, j) are names; they occur as the whole expression,
   signed, blank-padded, as keys and images of the map and as bystanders (instances MC_Tokens_words*).
@@ -200,6 +208,34 @@ def observe_rename(call, toks, mapping):
     return {'ok': ok, 'toks': got, 'text': text.replace('\n', '<NL>'), 'vok': vok, 'vals': vals}
 
 
+def observe_via(route, text, toks, lookup):
+    """rename through Equation / EquationBlock; observe the right-hand side before and after"""
+    from sfc_models.equation import Equation, EquationBlock
+    none = {'built': False, 'ok': False, 'pre': [], 'toks': [], 'text': '', 'vok': False, 'vals': [0, 0]}
+    try:
+        eq = Equation('lhs_', '', rhs=text)
+        blk = EquationBlock()
+        blk.AddEquation(eq)
+        before = eq.GetRightHandSide()
+        pok, pre = tokens_of(before)
+        if not pok:
+            return dict(none, text='PRE ' + before.replace('\n', '<NL>'))
+    except Exception as e:       # the Equation refuses this text: nothing to rename
+        return dict(none, text='REFUSED ' + type(e).__name__)
+    try:
+        if route == 'block':
+            blk.ReplaceTokensFromLookup(dict(lookup))
+        else:
+            eq.ReplaceTokensFromLookup(dict(lookup))
+        after = blk['lhs_'].GetRightHandSide()
+    except Exception as e:
+        return dict(none, built=True, pre=pre, text='EXC ' + type(e).__name__)
+    ok, got = tokens_of(after)
+    vok, vals = evaluate(after, got, renamed_envs(toks, lookup)) if ok else (False, [0, 0])
+    return {'built': True, 'ok': ok, 'pre': pre, 'toks': got, 'text': after.replace('\n', '<NL>'),
+            'vok': vok, 'vals': vals}
+
+
 def execute(beh):
     """Run one behaviour on the real code; returns the list of trace events."""
     from sfc_models.utils import list_tokens, replace_token, replace_token_from_lookup
@@ -218,6 +254,12 @@ def execute(beh):
                     lookup[p['from']] = p['to']
                 ev = {'ev': 'Rename', 'map': act['map'], 'sp': sp}
                 ev.update(observe_rename(lambda: replace_token_from_lookup(text, dict(lookup)), toks, lookup))
+            elif act['kind'] == 'RenameVia':
+                lookup = {}
+                for p in act['map']:
+                    lookup[p['from']] = p['to']
+                ev = {'ev': 'RenameVia', 'route': act['route'], 'map': act['map'], 'sp': sp}
+                ev.update(observe_via(act['route'], text, toks, lookup))
             elif act['kind'] == 'RenameOne':
                 ev = {'ev': 'RenameOne', 'target': act['target'], 'repl': act['repl'], 'sp': sp}
                 ev.update(observe_rename(lambda: replace_token(text, act['target'], act['repl']), toks,
@@ -246,9 +288,12 @@ def first_offender(beh, events):
             if not ev['ok'] or ev['names'] != [t['text'] for t in toks if t['kind'] == 'NAME']:
                 return ev
             continue
-        m = {p['from']: p['to'] for p in ev['map']} if ev['ev'] == 'Rename' else {ev['target']: ev['repl']}
+        m = {p['from']: p['to'] for p in ev['map']} if 'map' in ev else {ev['target']: ev['repl']}
+        if ev['ev'] == 'RenameVia' and not ev['built']:
+            continue
+        src = ev['pre'] if ev['ev'] == 'RenameVia' else toks
         want = [{'kind': 'NAME', 'text': m[t['text']]} if t['kind'] == 'NAME' and t['text'] in m else t
-                for t in toks]
+                for t in src]
         if not ev['ok'] or ev['toks'] != want:
             return ev
     return events[1] if len(events) > 1 else events[0]
@@ -263,7 +308,7 @@ def signature(clause, beh, events):
         text = render(toks, ev.get('sp') or 'dense') or ''
         return 'list_tokens:' + ('raises' if not ev.get('ok') else 'wrong-list') + \
             (':multi-line-input' if '\n' in text else '')
-    if act['kind'] == 'Rename':
+    if act['kind'] in ('Rename', 'RenameVia'):
         m = [(p['from'], p['to']) for p in act['map']]
         keys = set(a for a, _ in m)
         vals = [b for _, b in m]
@@ -274,7 +319,14 @@ def signature(clause, beh, events):
             'merge' if len(set(vals)) < len(vals) else 'plain'
         if real and len(real) < len(m):
             shape += '+identity'
-        fn = 'replace_token_from_lookup'
+        fn = 'replace_token_from_lookup' if act['kind'] == 'Rename' else \
+            {'equation': 'Equation.ReplaceTokensFromLookup', 'block': 'EquationBlock.ReplaceTokensFromLookup'}.get(
+                act.get('route'), 'via-' + str(act.get('route')))
+        if act['kind'] == 'RenameVia':
+            toks = ev.get('pre') or toks          # the stored form is what the call had to rename
+            n = len([t for t in toks if t['kind'] in ('NAME', 'NUMBER')])
+            fn += ':two-factor-term' if n == 2 and len(toks) in (3, 4) and not any(
+                t['text'] in ('(', '[') for t in toks) else ''
     else:
         m = [(act['target'], act['repl'])]
         shape = 'one' if act['target'] != act['repl'] else 'one-identity'
@@ -311,7 +363,7 @@ def word_is_key(beh):
     """a numeric-word name of the expression is a key of the map / the target of the call"""
     names = set(t['text'] for t in beh['toks'] if t['kind'] == 'NAME' and t['text'] in NUMERIC_WORDS)
     act = beh['acts'][0]
-    if act['kind'] == 'Rename':
+    if act['kind'] in ('Rename', 'RenameVia'):
         return any(p['from'] in names for p in act['map'])
     return act['kind'] == 'RenameOne' and act['target'] in names
 
@@ -320,7 +372,7 @@ def identity_hits(beh):
     """an identity entry (name -> same name) of the map names a name of the expression"""
     names = set(t['text'] for t in beh['toks'] if t['kind'] == 'NAME')
     act = beh['acts'][0]
-    if act['kind'] == 'Rename':
+    if act['kind'] in ('Rename', 'RenameVia'):
         return any(p['from'] == p['to'] and p['from'] in names for p in act['map'])
     return act['kind'] == 'RenameOne' and act['target'] == act['repl'] and act['target'] in names
 
@@ -329,7 +381,7 @@ def nontrivial(beh):
     """the call has something to do: a name of the map occurs (Rename/RenameOne), a name exists (ListNames)"""
     names = set(t['text'] for t in beh['toks'] if t['kind'] == 'NAME')
     act = beh['acts'][0]
-    if act['kind'] == 'Rename':
+    if act['kind'] in ('Rename', 'RenameVia'):
         return any(p['from'] in names for p in act['map'])
     if act['kind'] == 'RenameOne':
         return act['target'] in names
@@ -352,6 +404,10 @@ def judge(rep, behs):
         sum(1 for b in behs for sp in SPACINGS if '\n' in (render(b['toks'], sp) or ''))
     rep.extra['behaviours_with_identity_entry_hit'] = rep.extra.get('behaviours_with_identity_entry_hit', 0) + \
         sum(1 for b in behs if identity_hits(b))
+    via = [ev for _, evs in traces for ev in evs[1:] if ev['ev'] == 'RenameVia']
+    rep.extra['route_calls'] = rep.extra.get('route_calls', 0) + sum(1 for ev in via if ev['built'])
+    rep.extra['route_constructions_refused'] = rep.extra.get('route_constructions_refused', 0) + \
+        sum(1 for ev in via if not ev['built'])
     rep.extra['lone_operand_expressions'] = rep.extra.get('lone_operand_expressions', 0) + \
         sum(1 for b in behs if is_lone(b))
     rep.extra['behaviours_with_numeric_word_key'] = rep.extra.get('behaviours_with_numeric_word_key', 0) + \
@@ -377,10 +433,10 @@ def judge(rep, behs):
 # (cfg, number of -simulate traces or None for exhaustive)
 INSTANCES = {
     'quick': [('MC_Tokens_quick.cfg', None), ('MC_Tokens_quick2.cfg', None), ('MC_Tokens_words.cfg', None),
-              ('MC_Tokens_lines.cfg', None), ('MC_Tokens_blocks.cfg', None)],
+              ('MC_Tokens_lines.cfg', None), ('MC_Tokens_blocks.cfg', None), ('MC_Tokens_routes.cfg', None)],
     'thorough': [('MC_Tokens_quick.cfg', None), ('MC_Tokens_quick2.cfg', None), ('MC_Tokens_words.cfg', None),
                  ('MC_Tokens_lines.cfg', None), ('MC_Tokens_blocks.cfg', None),
-                 ('MC_Tokens_lines2.cfg', None),
+                 ('MC_Tokens_routes.cfg', None), ('MC_Tokens_lines2.cfg', None), ('MC_Tokens_routes2.cfg', None),
                  ('MC_Tokens_thorough.cfg', None), ('MC_Tokens_thorough2.cfg', None),
                  ('MC_Tokens_thorough3.cfg', None), ('MC_Tokens_words2.cfg', None),
                  ('MC_Tokens_sim.cfg', 6000)],
@@ -390,7 +446,8 @@ INSTANCES = {
 def run(rep):
     rep.rule = ('behaviours = all maximal histories of the bounded Tokens instances emitted by TLC: a token '
                 'sequence accepted by the expression grammar (<= MaxUnits steps) followed by one call '
-                '(Rename with a map of the instance, RenameOne, ListNames); each is replayed in every layout that applies (dense, spaced, untokenize style, padded, indented '
+                '(Rename with a map of the instance - directly or through Equation / EquationBlock -, RenameOne, '
+                'ListNames); each is replayed in every layout that applies (dense, spaced, untokenize style, padded, indented '
                 'continuation lines, backslash continuation). '
                 'distinct = distinct behaviour JSON; non-trivial = the expression contains a name the call '
                 'has to act on (a key of the map / the target / any name for ListNames)')
